@@ -86,7 +86,7 @@ def harness_problems(results):
             probs.append(r["error"])
             continue
         for rec in r["records"]:
-            if rec.get("harness"):
+            if rec.get("harness") and not rec.get("timeout"):
                 probs.append(f"{rec['harness']} argv={rec.get('argv')} status={rec.get('status')} stderr={rec.get('stderr', '')[-300:]}")
     return probs
 
@@ -483,6 +483,24 @@ def _explore(farm, mod, tier, verif_seed, budget_s, n_cases, fingerprints_out, t
                 if n0:
                     res = res + [scrub_result(got2[j["id"]]) for j in jobs_of(cx)[n0:]]
                 first.append((cx, res))
+        # a command that outlived the watchdog is executed once more with a 300 s budget: only if it is still
+        # running then does the oracle get to see a time-out (a watchdog cannot tell slow from stuck)
+        slow = [(k, c) for k, (c, res) in enumerate(first)
+                if any(rec.get("timeout") for r in res if "records" in r for rec in r["records"])]
+        for k, c in slow[:6]:
+            c2 = json.loads(json.dumps(c))
+            for v in c2["variants"]:
+                for st in v["steps"]:
+                    if "argv" in st:
+                        st["watchdog"] = 300
+            try:
+                _, res2 = execute_case(farm, dict(c2, expanded=True), id_prefix="w")
+            except HarnessError:
+                continue
+            for v_old, v_new in zip(c["variants"], c2["variants"]):
+                pass
+            first[k] = (c, res2)
+            cov.bump("commands_re-executed_with_300s_watchdog")
         for c, res in first:
             probs = harness_problems(res)
             if probs:
